@@ -968,14 +968,25 @@ def parse_tree_to_objgraph(
                 if unresolved_count > 0:
                     error_text = "Unresolvable cross references:"
 
+                    # The error is located at the first unresolvable
+                    # reference. Each position is relative to the text of the
+                    # model holding the reference, thus that model's parser
+                    # and file name must be used.
+                    location = None
                     for m in models:
+                        m_parser = m._tx_reference_resolver.parser
                         for _, _, delayed in m._tx_reference_resolver.delayed_crossrefs:
-                            line, col = parser.pos_to_linecol(delayed.position)
+                            line, col = m_parser.pos_to_linecol(delayed.position)
                             error_text += (
                                 f' "{delayed.obj_name}" of class '
                                 f'"{delayed.cls.__name__}" at {(line, col)}'
                             )
-                    raise TextXSemanticError(error_text, line=line, col=col)
+                            if location is None:
+                                location = (line, col, m._tx_filename)
+                    line, col, filename = location
+                    raise TextXSemanticError(
+                        error_text, line=line, col=col, filename=filename
+                    )
 
                 for m in models:
                     assert not m._tx_reference_resolver.parser._inst_stack
